@@ -766,8 +766,24 @@ func (c07) Gen(rng *rand.Rand, tier string, idx int) Case {
 		}
 		return t
 	}
-	for _, b := range batches {
-		op := append([]string{"batch", strconv.Itoa(len(b))}, rowToks(b)...)
+	// now and then one group of the FIRST batch lacks one column in all its rows: its aggregates over that column are NULL,
+	// the expressions over them have no value — and the later batches (same query instance) are ordinary again
+	holeGroup, holeCol := "", -1
+	if q.having == nil && len(batches) > 1 && len(batches[0]) > 0 && rng.Intn(3) == 0 { // (HAVING over a NULL aggregate is expr-lang's nil semantics, C17's recorded class — not generated here)
+		holeGroup, holeCol = batches[0][rng.Intn(len(batches[0]))].d, rng.Intn(len(c07Cols))
+		stat["null-aggregate-in-first-batch"] = true
+	}
+	for bi, b := range batches {
+		toks := rowToks(b)
+		if bi == 0 && holeCol >= 0 {
+			w := 1 + len(c07Cols)
+			for ri, r := range b {
+				if r.d == holeGroup {
+					toks[ri*w+1+holeCol] = "m"
+				}
+			}
+		}
+		op := append([]string{"batch", strconv.Itoa(len(b))}, toks...)
 		if sentinel != nil {
 			op = append(append(op, "sent", strconv.Itoa(len(sentinel))), rowToks(sentinel)...)
 		}
